@@ -21,7 +21,7 @@ RULE = (
 )
 ASSUMPTIONS = [
     "source translation and re-centring are checked with halo = 0 (whole periodic domain observed); tower translation and point reflection also with halos, on the part of the window where both cells are visible",
-    "off-grid measurement points are not asserted (spectral interpolation has no independent oracle)",
+    "measurement points between grid nodes are not asserted here (C02 asserts reciprocity for them against the forward run re-centred on the tower, C11 their registration at the surface level)",
     "shooting growth bounded by exp(13.8) by construction",
 ]
 TOLERANCES = {"all": "(1e-12 + 4096*eps*G) * max|field|"}
